@@ -524,6 +524,13 @@ class Executor(Engine):
         if s.value is None:
             return [(st, ('return', mk_none()))]
         ctx = self.new_ctx(st, s.lineno)
+        if isinstance(s.value, ast.Dict) and not s.value.keys:
+            # `return {}`: the empty dictionary of the contract's return type
+            rty_ = self.cur.ty(self.cur.returns)
+            if isinstance(rty_, TOpt):
+                rty_ = rty_.inner
+            if isinstance(rty_, TDict):
+                s.value._dict_ty = rty_
         v = self.ev.ev(s.value, ctx)
         st2 = self.commit(st, ctx, results)
         return results + [(st2, ('return', v, s.lineno))]
@@ -543,6 +550,20 @@ class Executor(Engine):
 
     def st_Continue(self, s, st):
         return [(st, ('continue',))]
+
+    def narrow_union(self, test, br):
+        """`if isinstance(x, int|float|str):` on a union-typed local (record with a kind tag and the payload fields i / f / s): inside the
+        branch x IS the payload of that kind"""
+        if not (isinstance(test, ast.Call) and isinstance(test.func, ast.Name) and test.func.id == 'isinstance' and len(test.args) == 2
+                and isinstance(test.args[0], ast.Name) and isinstance(test.args[1], ast.Name)):
+            return
+        nm, tn = test.args[0].id, test.args[1].id
+        v = br.env.get(nm)
+        if v is None or not isinstance(getattr(v, 'ty', None), TRec) or v.ty.name not in self.unions:
+            return
+        field, ty = {'int': ('i', INT), 'float': ('f', REAL), 'str': ('s', STR)}.get(tn, (None, None))
+        if field and field in v.ty.fields and v.ty.fields[field] == ty:
+            br.env[nm] = V(ty, v.ty.get(field, v.t))
 
     def st_If(self, s, st):
         results = []
@@ -579,6 +600,8 @@ class Executor(Engine):
             br = st2.fork([cond])
             if not self.feasible(br.pc):
                 continue
+            if cond is c:
+                self.narrow_union(s.test, br)
             res_ = self.exec_block(block, br) if block else [(br, None)]
             for st_, o_ in res_:
                 if o_ is None:
